@@ -251,7 +251,8 @@ def generate(rng, tier, stats):
             profile = "many"
         entries = rand_entries(rng, profile)
         ne = len(entries)
-        if profile != "huge" and rng.random() < 0.1:
+        # (each variant costs the harness a fork of the ASan process, ~50 ms: 2 % of the thorough stream)
+        if profile != "huge" and rng.random() < (0.1 if quick else 0.02):
             stats["variant_blocks"] += 1
             key = rand_query(rng, entries, {"queries": {}, "absent_key_queries": 0})
             yield "%s %s ?" % (hx(variant(rng, entries, stats)), hx(key))
